@@ -1271,6 +1271,174 @@ def _(o, rng):
     return both(INVALID)
 
 
+# ---- cross-inventory rules on objects with three or more versions (non-adjacent and several inventories)
+
+TYPE_URI = {"1.0": "https://ocfl.io/1.0/spec/#inventory", "1.1": "https://ocfl.io/1.1/spec/#inventory"}
+URI_TYPE = {v: k for k, v in TYPE_URI.items()}
+
+
+def vsorted(o):
+    return sorted(o.vkeys(), key=lambda k: int(k[1:]))
+
+
+def prior_versions(o):
+    """names of the non-head versions that store an inventory, oldest first; None unless the object has
+    three or more versions, all of them with an inventory"""
+    vs = vsorted(o)
+    if len(vs) < 3 or not all(os.path.isfile(os.path.join(o.path, v, "inventory.json")) for v in vs):
+        return None
+    return [v for v in vs if v != o.head]
+
+
+def vinv_load(o, v):
+    return jload(open(os.path.join(o.path, v, "inventory.json"), "rb").read())
+
+
+def vinv_save(o, v, t):
+    d = os.path.join(o.path, v)
+    out = PLAIN.bytes(t)
+    a = jget(t, "digestAlgorithm")
+    a = a if a in ("sha512", "sha256") else "sha512"
+    for n in os.listdir(d):
+        if n.startswith("inventory.json"):
+            os.remove(os.path.join(d, n))
+    rewrite(os.path.join(d, "inventory.json"), out)
+    rewrite(os.path.join(d, "inventory.json." + a), (hashlib.new(a, out).hexdigest() + " inventory.json\n").encode())
+
+
+def spec_sequence(o):
+    """inventory types v1 .. head, root as '1.0' / '1.1' (None for another string)"""
+    seq = [URI_TYPE.get(jget(vinv_load(o, v), "type")) for v in vsorted(o)]
+    return seq + [URI_TYPE.get(jget(o.t, "type"))]
+
+
+def monotone(seq):
+    return all(a is not None for a in seq) and all(a <= b_ for a, b_ in zip(seq, seq[1:]))
+
+
+def subsets12(xs):
+    """all subsets of size 1 and 2, singletons first"""
+    return [[x] for x in xs] + [[x, y] for i, x in enumerate(xs) for y in xs[i + 1:]]
+
+
+@edit("xinv-retype-one")
+def _(o, rng):
+    """ONE non-head version inventory retyped to the other specification version (3.7.1 E103: the sequence
+    v1 .. head must never go down); valid exactly when the sequence stays non-decreasing"""
+    pv = prior_versions(o)
+    if not pv or not monotone(spec_sequence(o)):
+        return None
+    v = pick(o, rng, pv)
+    t = vinv_load(o, v)
+    cur = URI_TYPE.get(jget(t, "type"))
+    jset(t, "type", TYPE_URI["1.1" if cur == "1.0" else "1.0"])
+    vinv_save(o, v, t)
+    return both(VALID if monotone(spec_sequence(o)) else INVALID)
+
+
+@edit("xinv-retype-after-upgrade")
+def _(o, rng):
+    """the whole object brought to 1.1 (declaration and every inventory: must stay valid), then one or two
+    non-head inventories, adjacent to the head or not, typed 1.0 again: e.g. 1.1, 1.0, 1.1 goes down and up"""
+    pv = prior_versions(o)
+    if not pv:
+        return None
+    for n in os.listdir(o.path):
+        if n.startswith("0="):
+            os.remove(os.path.join(o.path, n))
+    rewrite(os.path.join(o.path, "0=ocfl_object_1.1"), b"ocfl_object_1.1\n")
+    o.edit_all(lambda t: jset(t, "type", TYPE_URI["1.1"]))
+    for v in pick(o, rng, [[]] + subsets12(pv)):
+        t = vinv_load(o, v)
+        jset(t, "type", TYPE_URI["1.0"])
+        vinv_save(o, v, t)
+    return both(VALID if monotone(spec_sequence(o)) else INVALID)
+
+
+@edit("xinv-field")
+def _(o, rng):
+    """one clause of 3.7 / 3.5.1 broken in one or two non-head version inventories, the oldest first
+    (not only in the one next to the head): id (E037/E110), contentDirectory (E019/E020), head (E040),
+    the state of one of ITS earlier version blocks (E066)"""
+    pv = prior_versions(o)
+    if not pv:
+        return None
+    what = pick(o, rng, ["id", "cdir", "head", "state", "state-old-block"])
+    targets = rng.choice(subsets12(pv))
+    done = False
+    for v in targets:
+        t = vinv_load(o, v)
+        if what == "id":
+            jset(t, "id", jget(t, "id") + "-other")
+        elif what == "cdir":
+            jset(t, "contentDirectory", "other" if jget(t, "contentDirectory", "content") != "other" else "content")
+        elif what == "head":
+            others = [x for x in o.vkeys() if x != v]
+            jset(t, "head", rng.choice(others))
+        else:
+            blocks = jget(t, "versions")
+            names = sorted([k for k, _ in blocks], key=lambda k: int(k[1:]))
+            bn = names[0] if what == "state-old-block" else v
+            st = jget(jget(blocks, bn), "state")
+            if not isinstance(st, O) or not st:
+                continue
+            st[0] = (st[0][0], st[0][1] + ["only-in-%s-inventory.txt" % v])
+        vinv_save(o, v, t)
+        done = True
+    if not done:
+        return None
+    return both(INVALID)
+
+
+@edit("xinv-metadata-differs")
+def _(o, rng):
+    """created / message / user of an earlier version block differ between inventories: W011 only (3.7)"""
+    pv = prior_versions(o)
+    if not pv:
+        return None
+    for v in pick(o, rng, subsets12(pv)):
+        t = vinv_load(o, v)
+        blocks = jget(t, "versions")
+        bn = sorted([k for k, _ in blocks], key=lambda k: int(k[1:]))[0]
+        jset(jget(blocks, bn), "message", "edited in the %s inventory" % v)
+        jset(jget(blocks, bn), "created", "2001-02-03T04:05:06Z")
+        vinv_save(o, v, t)
+    return both(VALID)
+
+
+def respell_padding(name, rng, k):
+    """the same version number written with another zero padding"""
+    n = int(name[1:])
+    forms = ["v%d" % n, "v0%d" % n, "v%03d" % n, "v%04d" % n, "v%06d" % n]
+    forms = [f for f in forms if f != name]
+    return forms[k % len(forms)]
+
+
+@edit("head-padding")
+def _(o, rng):
+    """head names the right NUMBER with another zero padding than the version names (3.5.1 E040: head is
+    the version directory NAME; 3.3 E014), in the root inventory and the head version's copy"""
+    new = respell_padding(o.head, rng, getattr(o, "k", 0))
+    old = o.head
+    jset(o.t, "head", new)
+    data = PLAIN.bytes(o.t)
+    vallib.write_inventory(o.path, data, alg=o.alg, head=old)
+    return both(INVALID)
+
+
+@edit("xinv-head-padding")
+def _(o, rng):
+    """the same in non-head version inventories (any object with two or more versions)"""
+    vs = [v for v in vsorted(o) if v != o.head and os.path.isfile(os.path.join(o.path, v, "inventory.json"))]
+    if not vs:
+        return None
+    v = pick(o, rng, vs)
+    t = vinv_load(o, v)
+    jset(t, "head", respell_padding(v, rng, rng.randrange(5)))
+    vinv_save(o, v, t)
+    return both(INVALID)
+
+
 # ---- respellings and non-ASCII (must stay valid)
 
 def _respell(esc, ws, shuffle, slash):
@@ -1497,7 +1665,8 @@ def _(o, rng):
 VARIANTS = {"created-valid": len(CREATED_VALID), "created-invalid": len(CREATED_INVALID), "lpath-bad": len(LPATH_BAD),
             "lpath-odd-valid": len(LPATH_ODD), "head-bad": 11, "alg-name": 8, "type-uri": 7, "cdir-bad": 7, "version-key-bad": 9,
             "user-bad": 12, "cpath-bad": 6, "fs-declaration-content": 8, "fs-sidecar-format-bad": 10, "fs-root-inventory-broken": 7,
-            "fixity-block-bad": 6, "inventory-not-object": 8, "prior-inventory-edit": 6, "message-odd-valid": 8}
+            "fixity-block-bad": 6, "inventory-not-object": 8, "prior-inventory-edit": 6, "message-odd-valid": 8,
+            "xinv-retype-after-upgrade": 8, "xinv-field": 10, "head-padding": 8}
 
 
 # --------------------------------------------------------------------------- corpus
@@ -1591,6 +1760,26 @@ def regression_objects(ctx):
     jset(o.t, "id", "")
     o.save()
     out.append(("regression/b116ae5 empty id", dst, (INVALID, INVALID)))
+    # shape of seeded change C07-1 (E103 bound that never drops): spec versions v1..v3, root = 1.1, 1.0, 1.1, 1.1
+    dst = os.path.join(base, "e103-down-up")
+    shutil.copytree(os.path.join(off, "updates_three_versions_one_file"), dst)
+    os.remove(os.path.join(dst, "0=ocfl_object_1.0"))
+    rewrite(os.path.join(dst, "0=ocfl_object_1.1"), b"ocfl_object_1.1\n")
+    o = Obj(dst)
+    o.edit_all(lambda t: jset(t, "type", TYPE_URI["1.1"]))
+    t = vinv_load(o, "v2")
+    jset(t, "type", TYPE_URI["1.0"])
+    vinv_save(o, "v2", t)
+    out.append(("shape/E103 spec versions 1.1, 1.0, 1.1 (v1, v2, v3 = root)", dst, (INVALID, INVALID)))
+    # and the monotone neighbour, which must pass: 1.0, 1.0, 1.1
+    dst = os.path.join(base, "e103-monotone")
+    shutil.copytree(os.path.join(off, "updates_three_versions_one_file"), dst)
+    os.remove(os.path.join(dst, "0=ocfl_object_1.0"))
+    rewrite(os.path.join(dst, "0=ocfl_object_1.1"), b"ocfl_object_1.1\n")
+    o = Obj(dst)
+    jset(o.t, "type", TYPE_URI["1.1"])
+    o.save()
+    out.append(("shape/E103 spec versions 1.0, 1.0, 1.1 (v1, v2, v3 = root)", dst, (VALID, VALID)))
     return out
 
 
